@@ -104,7 +104,7 @@ fn default_p() -> u64 {
     option_env!("RUST_BIGDECIMAL_DEFAULT_PRECISION").unwrap_or("100").parse().unwrap()
 }
 
-/// `1 / x` through primitive numerators must equal inverse()
+/// `1 / x` through primitive numerators must satisfy the reciprocal contract at the default precision
 fn check_one_over(run: &Run, x: &Dec, t: &mut Tally) {
     let xb = bd(x);
     let want = match guard(|| xb.inverse()) {
@@ -133,9 +133,9 @@ fn check_one_over(run: &Run, x: &Dec, t: &mut Tally) {
         match got {
             Err(e) => run.report(Violation::new("one_over", "panic", case, show(&want), e)),
             Ok(r) => {
-                if dec(&r) != dec(&want) && !dec(&r).eq_val(&dec(&want)) {
-                    run.report(Violation::new("one_over", "differs_from_inverse", case, show(&want), show(&r)));
-                } else if let Err((class, exp)) = judge(x, &dec(&r), p) {
+                // `1 / x` may be computed by inverse() or by a division: either way it must meet the
+                // reciprocal's accuracy contract (it is NOT required to equal inverse() digit for digit)
+                if let Err((class, exp)) = judge(x, &dec(&r), p) {
                     run.report(Violation::new("one_over", class, case, exp, show(&r)));
                 }
             }
@@ -194,6 +194,19 @@ fn main() {
         }
         if i % 499 == 0 {
             run.sample(|| case_json(&Dec::new(n, 2), 2, Mode::Floor));
+        }
+        t
+    });
+
+    // S1b precision sweep: every p in 9..=150 on a small operand set
+    let pmax_sweep: u64 = tier.pick(60, 150);
+    let nsweep: usize = tier.pick(100, 300);
+    run.bound("S1b_precisions", format!("9..={}", pmax_sweep));
+    let psweep: Vec<u64> = (9..=pmax_sweep).collect();
+    run.par_opts("S1b precision sweep", nsweep, 60, &|i| json!({"x": format!("{}", i + 2)}), |i| {
+        let mut t = Tally::default();
+        for s in [0i128, 3, -2] {
+            sweep(&run, &Dec::new(i as i64 + 2, s), &psweep, &mut t);
         }
         t
     });
